@@ -662,6 +662,12 @@ pub fn crash_points(sink: &mut Sink, rng: &mut Rng, thorough: bool, work: &Path)
           sink.impl_failures.push(format!("C16 after a kill at {} the listing is neither the state before nor after: {} (before {}; after {})", point, rows_now, before, expected_after));
         }
         sink.emit(&format!("crashpoint {} {}", kind, point), "consistent", true);
+        if kind == "append" {
+          // the FILE the killed writer left, word for word and byte for byte, against the model of the stores
+          // already performed at that point (`fileAppendPrefix`)
+          let hist = format!("mk:{}|cs:1:1|ap:{}", entries.iter().map(|e| e.txt()).collect::<Vec<_>>().join(";"), newe.txt());
+          sink.emit(&format!("msfk 1 {} {}", hist, point), &file_dump(&file), true);
+        }
         // (3) while the (stale) lock exists no second updater proceeds
         if lock.exists() {
           let bytes = fs::read(&file).unwrap();
